@@ -17,6 +17,6 @@ OResp(id, v, vary1, vary2, star) ==
   /\ UNCHANGED <<contacted, reqs>>
 Matches(m, r) == ~m.star /\ \A s \in m.vary : r[s] = m.by[s]
 CResp(id, hv) ==
-  /\ (id \in contacted \/ hv = NoVal \/ hv \notin DOMAIN vers \/ Matches(vers[hv], reqs[id]))
+  /\ (IF id \in contacted \/ hv = NoVal \/ hv \notin DOMAIN vers THEN TRUE ELSE Matches(vers[hv], reqs[id]))
   /\ UNCHANGED yvars
 ====
